@@ -11,7 +11,7 @@ use crate::val::Val;
 
 pub const ID: &str = "C18";
 
-pub const RULE: &str = "cases = (grammar, input, input kind in {&str, &[char], Stream}): C01/C02/C08-class grammars (incl. lookahead, repetition with all consumers, foldl_with / foldr_with, recover_with, validate) in which EVERY node is wrapped in map_with(|v, e| (e.span(), *e.state())), select! closures and fold_with callbacks read e.state() too; the state is an Inspector (count, FNV hash of the tokens) whose checkpoint is a snapshot (on_token folds the token in, on_save copies, on_rewind restores). Oracles: (a) position consistency, oracle-free: every observation made when a node finished at position e equals fold(S0, tokens[0..e]) (e taken from the node's own span), and after a successful parse the caller's state equals fold(S0, all tokens), for parse_with_state and check_with_state; (b) reference: the complete output incl. all observations equals the reference's (which threads state by position and scope); (c) with_state(s): the sub-parser starts from a fresh copy of s on every invocation (observations inside = fold(s, tokens consumed inside this invocation so far)) and the outer state neither sees those tokens nor changes otherwise (outer observations afterwards = the outer fold without the inner tokens). Nothing is required of the state after a failed parse. State guard: on index-addressed inputs / ASCII text and grammars without with_state, select! closures reject their token when the state they see is not the fold of the tokens before the current position, so an inconsistent state inside not(), ignored(), the dropped side of then_ignore or check mode changes acceptance (templates for those positions); a token type whose equality is coarser than what the inspector looks at (3 parsers x every string over {a b c} up to length 6 / 8). NON-TRIVIAL = the reference abandoned an attempt after it had consumed input before an observation on the surviving path, or observations lie under and_is / rewind, or a recovery fired, or a with_state node was entered more than once; distinct = distinct (sub-check, grammar, input).";
+pub const RULE: &str = "cases = (grammar, input, input kind in {&str, &[char], Stream}): C01/C02/C08-class grammars (incl. lookahead, repetition with all consumers, foldl_with / foldr_with, recover_with, validate) in which EVERY node is wrapped in map_with(|v, e| (e.span(), *e.state())), select! closures and fold_with callbacks read e.state() too; the state is an Inspector (count, FNV hash of the tokens) whose checkpoint is a snapshot (on_token folds the token in, on_save copies, on_rewind restores). Oracles: (a) position consistency, oracle-free: every observation made when a node finished at position e equals fold(S0, tokens[0..e]) (e taken from the node's own span), and after a successful parse the caller's state equals fold(S0, all tokens), for parse_with_state and check_with_state; (b) reference: the complete output incl. all observations equals the reference's (which threads state by position and scope); (c) with_state(s): the sub-parser starts from a fresh copy of s on every invocation (observations inside = fold(s, tokens consumed inside this invocation so far)) and the outer state neither sees those tokens nor changes otherwise (outer observations afterwards = the outer fold without the inner tokens). Nothing is required of the state after a failed parse. State guard: on index-addressed inputs / ASCII text and grammars without with_state, select! closures reject their token when the state they see is not the fold of the tokens before the current position, so an inconsistent state inside not(), ignored(), the dropped side of then_ignore or check mode changes acceptance (templates for those positions); a token type whose equality is coarser than what the inspector looks at (3 parsers x every string over {a b c} up to length 6 / 8). and_is whose lookahead runs under its own with_state and is as long as the kept parser; a custom parser deciding with peek_maybe() / peek(); on the slice kind half of the cases consume through any_ref / select_ref!. NON-TRIVIAL = the reference abandoned an attempt after it had consumed input before an observation on the surviving path, or observations lie under and_is / rewind, or a recovery fired, or a with_state node was entered more than once; distinct = distinct (sub-check, grammar, input).";
 
 pub const ASSUMPTIONS: &[&str] = &[
     "map_with closures are pure and may be skipped where the value is discarded (then no observation exists on either side)",
